@@ -56,6 +56,16 @@ import (
 	"gopkg.in/sorcix/irc.v2"
 )
 
+// verifWait scales a wall-clock bound: the bounds only cost time when something is really stuck,
+// so they are generous; $VERIF_WAIT_SCALE multiplies them (the check re-runs a scenario that timed
+// out in isolation with larger bounds before it reports it).
+func verifGmWait(d time.Duration) time.Duration {
+	if s, err := strconv.ParseFloat(os.Getenv("VERIF_WAIT_SCALE"), 64); err == nil && s > 0 {
+		return time.Duration(float64(d) * s)
+	}
+	return d
+}
+
 type verifGmNopFSM struct{}
 
 func (verifGmNopFSM) Apply(*raft.Log) interface{}         { return nil }
@@ -82,7 +92,7 @@ func verifGmLeader() (*raft.Raft, error) {
 	if err != nil {
 		return nil, err
 	}
-	deadline := time.Now().Add(20 * time.Second)
+	deadline := time.Now().Add(verifGmWait(60 * time.Second))
 	for node.State() != raft.Leader {
 		if time.Now().After(deadline) {
 			return nil, fmt.Errorf("in-memory raft node did not become leader")
@@ -315,11 +325,11 @@ func verifGmRunCase(f []string, tmp string, raftNode *raft.Raft) (res string) {
 		x.cancel()
 		select {
 		case <-x.done:
-		case <-time.After(5 * time.Second):
+		case <-time.After(verifGmWait(15 * time.Second)):
 		}
 		x.w = nil
 	}
-	const wait = 3 * time.Second
+	wait := verifGmWait(10 * time.Second)
 	// read until stop(msg) says so; returns messages, and "" | "!timeout" | "!closed"
 	read := func(x *client, stop func(robust.Message, int) bool) ([]robust.Message, string) {
 		var got []robust.Message
@@ -415,7 +425,7 @@ func verifGmRunCase(f []string, tmp string, raftNode *raft.Raft) (res string) {
 				// the handler finishes the marker batch (its session / partition checks) and then
 				// flushes, at once or from its 10 ms timer: wait for that Flush, so that the next
 				// operation is not applied while the handler is still inside the marker batch
-				deadline := time.Now().Add(2 * time.Second)
+				deadline := time.Now().Add(verifGmWait(10 * time.Second))
 				for atomic.LoadInt64(&x.w.flushes) <= x.lastFlushes && time.Now().Before(deadline) {
 					time.Sleep(200 * time.Microsecond)
 				}
